@@ -86,6 +86,8 @@ BUILTIN_RAISES = [
     ('user-exception-str-replaces-sleep', "import time\nclass MyError(Exception):\n    def __str__(self):\n        time.sleep = len\n        return 'mine'\nraise MyError('mine')"),
     ('user-exception-str-imports', "class MyError(Exception):\n    def __str__(self):\n        import colorsys, sndhdr\n        return 'mine'\nraise MyError('mine')"),
     ('user-exception-str-prints', "class MyError(Exception):\n    def __str__(self):\n        print('describing')\n        return 'mine'\nraise MyError('mine')"),
+    ('exception-after-importing-own-file', "import tools_of_mine\nx = tools_of_mine.double(2) / 0"),
+    ('exception-in-own-imported-file', "import tools_of_mine\nx = tools_of_mine.double(None)"),
     ('exception-after-stdout-closed', "import sys\nsys.stdout.close()\nx = 1 / 0"),
     ('exception-after-stdout-replaced', "import sys\nsys.stdout = None\nx = 1 / 0"),
     ('exception-deep-frames', "def d0(n):\n    if n == 0:\n        return 1 // 0\n    return d0(n - 1)\nd0(12)"),
@@ -129,6 +131,7 @@ TIMEOUTS = [
     ('timeout-busy-loop', "while True:\n    pass"), ('timeout-print-loop', "n = 0\nwhile True:\n    n += 1\n    if n % 5000 == 0:\n        print(n)"),
     ('timeout-swallows-the-interrupt', "try:\n    while True:\n        pass\nexcept BaseException:\n    swallowed = True"),
     ('timeout-in-function', "def spin():\n    while True:\n        pass\nspin()"),
+    ('timeout-after-importing-own-file', "import tools_of_mine\nn = tools_of_mine.double(2)\nwhile True:\n    n += 1"),
 ]
 PRELUDE = "total = 0\nwords = ['a', 'b']\n\n"   # two student lines + blank before the failing body (line 4 on)
 
@@ -224,7 +227,16 @@ def indent(text, n=4):
     return '\n'.join((' ' * n + l) if l else l for l in text.split('\n'))
 
 
+OWN_MODULE = {'tools_of_mine.py': 'def double(x):\n    return 2 * x\n'}
+
+
 def build_files(mode, entry):
+    files = _build_files(mode, entry)
+    files.update(OWN_MODULE)       # a second file of the student's, which some bodies import (and finish importing) first
+    return files
+
+
+def _build_files(mode, entry):
     """-> (files dict, main_file, how to trigger) ; student line numbers are whole-file."""
     body = mode['body']
     if entry == 'run' or mode['kind'] == 'compile' and entry != 'import':
@@ -247,7 +259,7 @@ class RefResult:
         self.output = ''
 
 
-STUDENT_FILES = ('answer.py', 'helper.py')
+STUDENT_FILES = ('answer.py', 'helper.py', 'tools_of_mine.py')
 
 
 def _ref_import(files, ns):
@@ -515,7 +527,7 @@ def _measured(ctx, which, case, sandbox, report, files, inputs, n_rt_before):
         ref = RefResult()       # never ends: there is no plain-CPython reference, and C05 needs none
     else:
         ref = reference(files, 'run' if kind == 'compile' and entry != 'import' else entry, inputs) if entry != 'run-code' else \
-            reference({'answer.py': case['body'] + '\n'}, 'run', inputs)
+            reference(dict(OWN_MODULE, **{'answer.py': case['body'] + '\n'}), 'run', inputs)
     if entry == 'run-code' and ref.line is not None:
         ref.line = None         # instructor-supplied code: no student line
     # ---- the measured call ---------------------------------------------------------------------------
